@@ -273,6 +273,10 @@ class APIConnection:
         Safe to call multiple times.
         """
         if self.connection_state is CONNECTION_STATE_CLOSED:
+            # A connect phase that was still running when the connection
+            # was closed may have acquired a transport or socket since;
+            # they must not outlive the connection.
+            self._release_resources()
             return
         was_connected = self.is_connected
         self._set_connection_state(CONNECTION_STATE_CLOSED)
